@@ -920,7 +920,15 @@ func execC17Handler(c C17Case, bound time.Duration) (map[string]bool, error) {
 func execC17Service(c C17Case, bound time.Duration) (map[string]bool, error) {
 	facts := map[string]bool{}
 	tr := map[string]string{"pipe": "pipe", "unix": "unixabs", "tcp": "tcp", "bridge": "unixabs"}[c.Transport]
-	env, err := startE2E([]string{"x.y"}, tr, false)
+	// trigger "deadline": the serving context carries a deadline that passes while the connection is open
+	parent, pcancel := context.Background(), context.CancelFunc(func() {})
+	var expiry time.Time
+	if c.Trigger == "deadline" {
+		expiry = time.Now().Add(400 * time.Millisecond)
+		parent, pcancel = context.WithDeadline(context.Background(), expiry)
+	}
+	defer pcancel()
+	env, err := startE2EWith(parent, []string{"x.y"}, tr, false)
 	if err != nil {
 		return facts, err
 	}
@@ -970,12 +978,27 @@ func execC17Service(c C17Case, bound time.Duration) (map[string]bool, error) {
 		}
 	}
 	time.Sleep(2 * time.Millisecond)
-	env.cancel() // the serving context
+	how := "was cancelled"
+	if c.Trigger == "deadline" {
+		if time.Until(expiry) < 30*time.Millisecond {
+			// the preparation took longer than the deadline allowed (loaded machine): the case says nothing
+			facts["inconclusive:slow-machine"] = true
+			conn.Close()
+			env.cancel()
+			env.stop(bound)
+			return facts, nil
+		}
+		how = "reached its deadline"
+		facts["serving-context-deadline"] = true
+		time.Sleep(time.Until(expiry))
+	} else {
+		env.cancel() // the serving context
+	}
 	t0 := time.Now()
 	got, eof, _ := readFrames(conn, -1, bound)
 	if !eof {
 		env.svc.Shutdown()
-		return facts, fmt.Errorf("service on %s: %v after the serving context was cancelled the idle connection is still open (its blocked read did not return)", c.Transport, bound)
+		return facts, fmt.Errorf("service on %s: %v after the serving context %s the idle connection is still open (its blocked read did not return)", c.Transport, bound, how)
 	}
 	if len(got) != 0 {
 		return facts, fmt.Errorf("service: unexpected bytes %s after cancellation", Preview(got))
@@ -1071,6 +1094,7 @@ func c17Cells() []C17Case {
 		}
 		for _, inst := range []string{"blocked", "partial"} {
 			cells = append(cells, C17Case{Side: "service", Op: "idle", Transport: tr, Trigger: "cancel", Instant: inst})
+			cells = append(cells, C17Case{Side: "service", Op: "idle", Transport: tr, Trigger: "deadline", Instant: inst})
 			if inst == "partial" {
 				cells = append(cells, C17Case{Side: "service", Op: "idle", Transport: tr, Trigger: "cancel", Instant: inst, Coalesced: true})
 			}
